@@ -2415,6 +2415,214 @@ fn space_made_inputs(ctx: &Ctx, d: &Dom) {
     sp.done(true, &format!("{} (object, input) pairs", cases.len()));
 }
 
+
+//============ Re-issue from decoded foreign objects ==========================
+//
+// Builder inputs that only decoding produces: a foreign object -- the same
+// object another implementation would have published, in every benign
+// spelling this file knows (AlgorithmIdentifier with / without NULL
+// parameters inside and outside, UTCTime / GeneralizedTime for the same
+// instant, attribute order inside a name) -- is decoded, and what was decoded
+// is fed back into the builders: the decoded TbsCert cloned, modified and
+// re-issued with into_cert; TbsCertList::new from a decoded CRL's fields;
+// manifests and ROAs re-issued from decoded contents and the decoded EE
+// certificate's fields; a decoded CSR turned into a certificate. A spelling
+// the library's own decoder or validator refuses is not an input (counted as
+// an outcome, not judged); every re-issued object is judged by the usual
+// oracles.
+
+/// Re-encodes a TLV tree, replacing nodes for which `f` returns octets.
+fn respell(buf: &[u8], node: &der::Node, path: &mut Vec<usize>, f: &dyn Fn(&[usize], &der::Node) -> Option<Vec<u8>>) -> Vec<u8> {
+    if let Some(x) = f(path, node) { return x }
+    if node.constructed() && !node.children.is_empty() {
+        let mut body = vec![];
+        for (i, c) in node.children.iter().enumerate() { path.push(i); body.extend(respell(buf, c, path, f)); path.pop(); }
+        der::tlv(node.tag, &body)
+    } else { node.whole(buf).to_vec() }
+}
+
+/// spelling bits: 1 = inner AlgorithmIdentifier without NULL, 2 = outer
+/// without NULL, 4 = UTCTime values written as GeneralizedTime, 8 = the
+/// attributes of a two-attribute RDN swapped
+const SPELLINGS: usize = 16;
+fn spelling_name(sp: usize) -> String {
+    let mut v = vec![];
+    if sp & 1 != 0 { v.push("inner-alg-no-NULL") } if sp & 2 != 0 { v.push("outer-alg-no-NULL") }
+    if sp & 4 != 0 { v.push("GeneralizedTime-for-UTCTime") } if sp & 8 != 0 { v.push("RDN-attributes-swapped") }
+    if v.is_empty() { "as-built".into() } else { v.join("+") }
+}
+fn alg_no_null() -> Vec<u8> { der::seq(&[der::oid(der::OID_SHA256_WITH_RSA)]) }
+
+/// Respells a signed X.509 structure SEQUENCE { tbs, alg, signature } (a
+/// certificate when `cert`, else a CRL) and signs it again with `key`.
+fn respell_x509(d: &Dom, bytes: &[u8], cert: bool, sp: usize, key: usize) -> Option<Vec<u8>> {
+    let root = der::parse_one(bytes, false)?;
+    let tbs = root.children.first()?;
+    let alg_ix = if cert { 2 } else { 1 };
+    let f = |path: &[usize], n: &der::Node| -> Option<Vec<u8>> {
+        if path == [alg_ix] && sp & 1 != 0 { return Some(alg_no_null()) }
+        if n.tag == der::T_UTCTIME && sp & 4 != 0 {
+            let t = n.content(bytes); let yy = (t[0] - b'0') * 10 + (t[1] - b'0');
+            let mut g = if yy >= 50 { b"19".to_vec() } else { b"20".to_vec() }; g.extend_from_slice(t);
+            return Some(der::tlv(der::T_GENTIME, &g))
+        }
+        if n.tag == der::T_SET && n.children.len() == 2 && sp & 8 != 0 {
+            return Some(der::tlv(der::T_SET, &[n.children[1].whole(bytes), n.children[0].whole(bytes)].concat()))
+        }
+        None
+    };
+    let new_tbs = respell(bytes, tbs, &mut vec![], &f);
+    let sig = d.signer.sign_raw(key, &new_tbs);
+    let outer = if sp & 2 != 0 { alg_no_null() } else { der::alg_sha256_with_rsa() };
+    Some(der::seq(&[new_tbs, outer, der::bitstring(0, &sig)]))
+}
+
+/// Respells the EE certificate inside a signed object (and, with bit 1, the
+/// digest AlgorithmIdentifiers' NULL is left alone: CMS spellings are C02's).
+fn respell_cms(d: &Dom, bytes: &[u8], sp: usize) -> Option<Vec<u8>> {
+    let root = der::parse_one(bytes, false)?;
+    // ContentInfo { oid, [0] { SignedData { version, digestAlgs, encap, [0] certs { cert }, signerInfos } } }
+    let cert_path = [1usize, 0, 3, 0];
+    let mut n = &root; for &i in &cert_path { n = n.children.get(i)? }
+    let cert = respell_x509(d, n.whole(bytes), true, sp, 0)?;
+    let f = |path: &[usize], _: &der::Node| if path == cert_path { Some(cert.clone()) } else { None };
+    Some(respell(bytes, &root, &mut vec![], &f))
+}
+
+#[derive(Clone, Debug)]
+struct ReissueCase { obj: u8, spelling: usize, modify: u8 }
+
+fn space_reissue(ctx: &Ctx, d: &Dom) {
+    let sp = ctx.space("build.reissue_from_decoded",
+        "foreign objects = library-built DER respelled with engine::der in 16 spellings (inner / outer AlgorithmIdentifier with or without NULL, UTCTime written as GeneralizedTime, RDN attributes swapped) and signed again; each spelling the library's decoder and validator accept is decoded and fed back into the builders: CA / EE / TA / router TbsCert cloned from the decoded certificate x {unchanged, new serial, new validity, new serial + key + names} -> into_cert; TbsCertList::new from the decoded CRL's signature(), issuer(), times, entries iterator, AKI and number x {unchanged, new number + times, set_signature(decoded value) on a fresh list}; manifest and ROA re-issued from decoded content with a SignedObjectBuilder filled from the decoded EE certificate; a decoded CSR turned into a CA certificate; all judged by decode / re-encode / accessor agreement / validation; refused spellings are an outcome class, not judged; non-trivial = distinct DER; outcome = object kind + accepted/refused spelling");
+    let kinds = [CKind::Ca, CKind::Ee, CKind::Ta, CKind::Router];
+    let mut cases = vec![];
+    for obj in 0..8u8 { for spelling in 0..SPELLINGS { for modify in 0..4u8 {
+        if obj >= 4 && modify >= 3 { continue }
+        if obj == 7 && spelling & !3 != 0 { continue }            // CSR: only the algorithm identifiers are spelled
+        cases.push(ReissueCase { obj, spelling, modify });
+    }}}
+    let obj_names = ["cert.ca", "cert.ee", "cert.ta", "cert.router", "crl", "manifest", "roa", "csr->cert"];
+    let probes: Vec<Serial> = d.serials.iter().map(|s| s.1).collect();
+    let base_uri = d.dirs[1].clone();
+    let files = mft_files();
+    let a4 = roa_alphabet(true);
+    let so = SoSpec::base();
+    run_cases(ctx, &sp, "reissue", &cases,
+        |c| format!("{} foreign spelling={} modification#{}", obj_names[c.obj as usize], spelling_name(c.spelling), c.modify),
+        |c| {
+            let mut r = CaseResult::default();
+            r.label = format!("{} spelling accepted", obj_names[c.obj as usize]);
+            let refused = |r: &mut CaseResult, why: String| { r.label = format!("{} foreign spelling refused by the library ({})", obj_names[c.obj as usize], rpki_verif::trunc(&why, 60)); };
+            let now = d.instants[1];
+            let res = guard(|| -> Result<(), String> {
+                let signer = so.signer(d);
+                match c.obj {
+                    0..=3 => {
+                        let kind = kinds[c.obj as usize];
+                        let spec = CertSpec::base(kind);
+                        let skey = if kind == CKind::Ta { spec.subject_key } else { 0 };
+                        let orig = spec.build(d).into_cert(&d.signer, &Kid(skey)).map_err(|e| e.to_string())?;
+                        let foreign = respell_x509(d, orig.to_captured().as_slice(), true, c.spelling, skey).ok_or("respell failed")?;
+                        let f = match Cert::decode(foreign.as_slice()) { Ok(f) => f, Err(e) => { refused(&mut r, e.to_string()); return Ok(()) } };
+                        if let Err(e) = validate_cert(d, kind, &f, now) { refused(&mut r, e); return Ok(()) }
+                        let mut t: TbsCert = { let x: &TbsCert = f.as_ref(); x.clone() };
+                        let mut k2 = skey;
+                        match c.modify {
+                            0 => {}
+                            1 => t.set_serial_number(d.serials[5].1),
+                            2 => t.set_validity(d.validity((0, 4))),
+                            _ => { t.set_serial_number(d.serials[0].1);
+                                   if kind != CKind::Router { t.set_subject_public_key(d.signer.public(5)); if kind == CKind::Ta { k2 = 5; t.set_issuer(d.xnames[0].1.clone()) } }
+                                   t.set_subject(d.xnames[0].1.clone()) }
+                        }
+                        let built = t.into_cert(&d.signer, &Kid(k2)).map_err(|e| e.to_string())?;
+                        let Some((_, decoded)) = twin(&mut r, &built, |c| c.to_captured().as_slice().to_vec(), |b| Cert::decode(b).map_err(|e| e.to_string()), obs_cert) else { return Ok(()) };
+                        if let Err(e) = validate_cert(d, kind, &decoded, now) { r.fail("validate", format!("re-issued certificate, decoded twin: {e}")) }
+                        if let Err(e) = validate_cert(d, kind, &built, now) { r.fail("validate", format!("re-issued certificate, built value: {e}")) }
+                    }
+                    4 => {
+                        let ents = vec![CrlEntry::new(d.serials[3].1, d.instants[3]), CrlEntry::new(d.serials[0].1, d.instants[1])];
+                        let orig = TbsCertList::new(RpkiSignatureAlgorithm::default(), d.issuer_name(2, 0), d.instants[1], d.instants[2], ents, d.signer.public(0).key_identifier(), d.serials[3].1)
+                            .into_crl(&d.signer, &Kid(0)).map_err(|e| e.to_string())?;
+                        let foreign = respell_x509(d, orig.to_captured().as_slice(), false, c.spelling, 0).ok_or("respell failed")?;
+                        let f = match Crl::decode(foreign.as_slice()) { Ok(f) => f, Err(e) => { refused(&mut r, e.to_string()); return Ok(()) } };
+                        if let Err(e) = f.verify_signature(&d.signer.public(0)) { refused(&mut r, e.to_string()); return Ok(()) }
+                        let mut t = match c.modify {
+                            2 => { let mut t = TbsCertList::new(RpkiSignatureAlgorithm::default(), f.issuer().clone(), f.this_update(), f.next_update(), f.revoked_certs().iter(), *f.authority_key_identifier(), f.crl_number());
+                                   t.set_signature(f.signature()); t }
+                            _ => TbsCertList::new(f.signature(), f.issuer().clone(), f.this_update(), f.next_update(), f.revoked_certs().iter(), *f.authority_key_identifier(), f.crl_number()),
+                        };
+                        if c.modify == 1 { t.set_crl_number(d.serials[5].1); t.set_this_update(d.instants[2]); t.set_next_update(d.instants[3]) }
+                        let built = t.into_crl(&d.signer, &Kid(0)).map_err(|e| e.to_string())?;
+                        let Some((_, decoded)) = twin(&mut r, &built, |m| m.to_captured().as_slice().to_vec(), |b| Crl::decode(b).map_err(|e| e.to_string()), |x| obs_crl(x, &probes)) else { return Ok(()) };
+                        if let Err(e) = decoded.verify_signature(&d.signer.public(0)) { r.fail("validate", e.to_string()) }
+                    }
+                    5 | 6 => {
+                        // the foreign signed object and its decoded EE certificate
+                        let orig_bytes: Vec<u8> = if c.obj == 5 {
+                            ManifestContent::new(d.serials[3].1, d.instants[1], d.instants[2], DigestAlgorithm::sha256(),
+                                [0usize, 3, 5].iter().map(|&i| FileAndHash::new(files[i].0.clone(), files[i].1.clone())))
+                                .into_manifest(so.builder(d), &signer, &Kid(0)).map_err(|e| e.to_string())?.to_captured().as_slice().to_vec()
+                        } else {
+                            let mut b = RoaBuilder::new(Asn::from_u32(65536)); for i in [1usize, 0, 7] { b.push_v4(a4[i]) }
+                            b.finalize(so.builder(d), &signer, &Kid(0)).map_err(|e| e.to_string())?.to_captured().as_slice().to_vec()
+                        };
+                        let foreign = respell_cms(d, &orig_bytes, c.spelling).ok_or("respell failed")?;
+                        let fs = match SignedObject::decode(foreign.as_slice(), true) { Ok(f) => f, Err(e) => { refused(&mut r, e.to_string()); return Ok(()) } };
+                        if let Err(e) = fs.clone().validate_at(&d.ta, true, now) { refused(&mut r, e.to_string()); return Ok(()) }
+                        let ee = fs.cert();
+                        let mut b = SignedObjectBuilder::new(if c.modify == 1 { d.serials[5].1 } else { ee.serial_number() }, if c.modify == 2 { d.validity((0, 4)) } else { ee.validity() },
+                            ee.crl_uri().ok_or("no crl uri")?.clone(), ee.ca_issuer().ok_or("no ca issuer")?.clone(), ee.signed_object().ok_or("no signed object")?.clone());
+                        b.set_issuer(Some(ee.issuer().clone())); b.set_subject(Some(ee.subject().clone())); b.set_signing_time(fs.signing_time());
+                        let bytes = if c.obj == 5 {
+                            let f = Manifest::decode(foreign.as_slice(), true).map_err(|e| e.to_string())?;
+                            let m = f.content();
+                            let built = ManifestContent::new(m.manifest_number(), m.this_update(), m.next_update(), m.file_hash_alg(), m.iter()).into_manifest(b, &signer, &Kid(0)).map_err(|e| e.to_string())?;
+                            let Some((bytes, _)) = twin(&mut r, &built, |m| m.to_captured().as_slice().to_vec(), |x| Manifest::decode(x, true).map_err(|e| e.to_string()), |m| obs_manifest(m, &base_uri)) else { return Ok(()) };
+                            if c.modify == 0 && bytes != orig_bytes { r.fail("form_independent", "the manifest re-issued unchanged from its decoded foreign spelling differs from the object first built") }
+                            bytes
+                        } else {
+                            let f = Roa::decode(foreign.as_slice(), true).map_err(|e| e.to_string())?;
+                            let mut rb = RoaBuilder::new(f.content().as_id());
+                            rb.v4_mut().extend(f.content().v4_addrs().iter()); rb.v6_mut().extend(f.content().v6_addrs().iter());
+                            let built = rb.finalize(b, &signer, &Kid(0)).map_err(|e| e.to_string())?;
+                            let Some((bytes, decoded)) = twin(&mut r, &built, |m| m.to_captured().as_slice().to_vec(), |x| Roa::decode(x, true).map_err(|e| e.to_string()), obs_roa) else { return Ok(()) };
+                            if let Err(e) = decoded.process(&d.ta, true, |_| Ok(())) { r.fail("validate", format!("Roa::process: {e}")) }
+                            if c.modify == 0 && bytes != orig_bytes { r.fail("form_independent", "the ROA re-issued unchanged from its decoded foreign spelling differs from the object first built") }
+                            bytes
+                        };
+                        let so2 = SoSpec { win: if c.modify == 2 { (0, 4) } else { so.win }, ..so.clone() };
+                        validate_signed(d, &mut r, &bytes, &so2);
+                    }
+                    _ => {
+                        let orig = Csr::construct_rpki_ca(&d.signer, &Kid(3), &d.dirs[1], &d.mfts[1], d.https[2].as_ref()).map_err(|e| e.to_string())?;
+                        // a CSR is SEQUENCE { info, alg, signature }: only the outer identifier exists
+                        let root = der::parse_one(orig.as_slice(), false).ok_or("csr parse")?;
+                        let info = root.children[0].whole(orig.as_slice()).to_vec();
+                        let foreign = der::seq(&[info.clone(), if c.spelling & 2 != 0 { alg_no_null() } else { der::alg_sha256_with_rsa() }, der::bitstring(0, &d.signer.sign_raw(3, &info))]);
+                        let f = match RpkiCaCsr::decode(foreign.as_slice()) { Ok(f) => f, Err(e) => { refused(&mut r, e.to_string()); return Ok(()) } };
+                        if let Err(e) = f.verify_signature() { refused(&mut r, e.to_string()); return Ok(()) }
+                        let mut t = TbsCert::new(d.serials[if c.modify == 1 { 5 } else { 3 }].1, d.issuer_name(1, 0), d.validity(if c.modify == 2 { (0, 4) } else { (1, 3) }),
+                            if c.spelling & 1 != 0 { Some(f.subject().clone()) } else { None }, f.public_key().clone(), f.key_usage(), Overclaim::Refuse);
+                        t.set_basic_ca(Some(f.basic_ca()));
+                        t.set_ca_repository(f.ca_repository().cloned()); t.set_rpki_manifest(f.rpki_manifest().cloned()); t.set_rpki_notify(f.rpki_notify().cloned());
+                        t.set_crl_uri(Some(d.crls[1].clone())); t.set_ca_issuer(Some(d.cers[1].clone()));
+                        t.set_authority_key_identifier(Some(d.ta.subject_key_identifier()));
+                        t.set_as_resources_inherit(); t.set_v4_resources_inherit();
+                        let built = t.into_cert(&d.signer, &Kid(0)).map_err(|e| e.to_string())?;
+                        let Some((_, decoded)) = twin(&mut r, &built, |c| c.to_captured().as_slice().to_vec(), |b| Cert::decode(b).map_err(|e| e.to_string()), obs_cert) else { return Ok(()) };
+                        if let Err(e) = validate_cert(d, CKind::Ca, &decoded, d.instants[1]) { r.fail("validate", e) }
+                    }
+                }
+                Ok(())
+            });
+            match res { Ok(Ok(())) => {}, Ok(Err(e)) => r.fail("build", e), Err(p) => r.fail("build", p) }
+            r
+        });
+    sp.done(true, &format!("{} (object, spelling, modification) triples", cases.len()));
+}
+
 fn main() {
     let ctx = Ctx::new("C05", "exploration");
     ctx.assume("aws-lc RSA/ECDSA and SHA-256 are correct; keys come from the fixed pool in /verif/keys");
@@ -2436,5 +2644,6 @@ fn main() {
     if want("forms") { space_forms(&ctx, &d) }
     if want("setters") { space_setters(&ctx, &d) }
     if want("made") { space_made_inputs(&ctx, &d) }
+    if want("reissue") { space_reissue(&ctx, &d) }
     ctx.finish();
 }
